@@ -463,6 +463,16 @@ def search_jobs(ck, tier, cases):
         jobs.append(("corpus-of-failures", compile_job(None, files=files, entry=entry, quiet=True)))
     for files, entry in config_projects():
         jobs.append(("config-projects", compile_job(None, files=files, entry=entry, quiet=True)))
+    # round 3 (seeded C01-r3m1): loop bounds at and beyond the i64 range, both directions, to/through — must be an
+    # error or a (short) loop, never an arithmetic-overflow panic or an endless count
+    for lo in ("0", "1", "-1", "9223372036854775806", "-9223372036854775807"):
+        for hi in ("1e19", "-1e19", "9223372036854775807", "-9223372036854775808", "9223372036854775808", "-9223372036854775809",
+                   "1e308", "-1e308", "math.div(1, 0)", "math.div(-1, 0)", "9223372036854775806", "-9223372036854775807"):
+            for kw in ("to", "through"):
+                for a, b in ((lo, hi), (hi, lo)):
+                    src = f'@use "sass:math";\na {{ @for $i from {a} {kw} {b} {{ @if $i == 0 {{ b: $i; }} @else {{ @error "stop"; }} }} }}\n'
+                    add("for-extreme-bounds", src, {"syntax": "scss"})
+                    add("for-extreme-bounds", f'@use "sass:math"\na\n  @for $i from {a} {kw} {b}\n    @error "stop"\n', {"syntax": "sass"})
     # golden corpus with its own options and under every syntax/style/option set
     pick = cases if not quick else rng.sample(cases, 500)
     for c in pick:
